@@ -864,6 +864,83 @@ def check_c14(env, fam, L):
                     env.violation({"kind": "coerced-image", "family": "discriminated"}, wit)
 
 
+def check_c07(env, fam, L):
+    """serialize(T, v) validates against serialization_schema(T) (standard semantics); a disagreement that the OpenAPI reading of
+    `discriminator` reproduces exactly is the recorded defect F33, any other is new"""
+    from apischema import deserialization_method, serialization_method
+    from apischema.json_schema import serialization_schema
+    from vf import harness, jsonschema_o as jo
+
+    rng = env.rng
+    for label, expr, kind in pick_entries(env, fam):
+        ap = rng.random() < 0.3 and "typed_dict" not in fam.features
+        al_name = rng.choice(["identity", "identity", "camel"])
+        al = _aliaser(al_name)
+        kw = {"additional_properties": ap}
+        if al:
+            kw["aliaser"] = al
+        T = L.T(expr)
+        harness.reset_all()
+        om = harness.call(deserialization_method, T, **kw)
+        osm = harness.call(serialization_method, T, **kw)
+        osch = harness.call(serialization_schema, T, **kw)
+        prog = L.program(expr)
+        if om.kind != "ok" or osm.kind != "ok" or osch.kind != "ok":
+            bad = next(o for o in (om, osm, osch) if o.kind != "ok")
+            env.violation({"kind": "compile", "family": "discriminated", "exc": bad.exc or "ValidationError", "site": bad.site}, {"program": prog, "outcome": bad.brief()})
+            continue
+        schema = json.loads(json.dumps(osch.value))
+        if jo.meta_errors(schema, "2020-12") or jo.in_place_cycle(schema):
+            env.count("inconclusive:schema ill-formed (C17)")
+            continue
+        validator = jo.make_validator(schema)
+        explainers = {}
+        for dl, d in workload(fam, kind, rng, al, per_alt=2):
+            r = harness.call(om.value, d)
+            if r.kind != "ok":
+                continue
+            so = harness.call(osm.value, r.value)
+            if so.kind != "ok":
+                env.count("inconclusive:serialize failed (C04/C05)")
+                continue
+            try:
+                data = json.loads(json.dumps(so.value))
+            except Exception:
+                env.count("inconclusive:non-JSON output (C04)")
+                continue
+            env.case("disc07", fam.sig(), kind, ap, al_name, dl.split(":")[0], nontrivial=True)
+            env.count("discriminated_serialized_validations")
+            try:
+                ok = jo.is_valid(validator, data)
+            except RecursionError:
+                continue
+            if ok:
+                env.count("validated")
+                continue
+            feats = {"kind": "serialized-data-invalid-for-schema", "family": "discriminated"}
+            for name, opts in EXPLANATIONS:
+                if name not in explainers:
+                    s2 = intended_schema(schema, closed=not ap, **opts)
+                    try:
+                        explainers[name] = jo.make_validator(s2) if s2 is not None else None
+                    except Exception:
+                        explainers[name] = None
+                v2 = explainers[name]
+                if v2 is None:
+                    continue
+                try:
+                    if jo.is_valid(v2, data):
+                        feats["explained_by"] = name
+                        break
+                except Exception:
+                    continue
+            if "explained_by" not in feats:
+                feats["keywords"] = sorted({e.validator for e in validator.iter_errors(data)})[:4]
+                feats["form"] = fam.form
+            env.violation(feats, {"program": prog, "family": fam.describe(), "entry": label, "options": {"additional_properties": ap, "aliaser": al_name},
+                                  "value": harness.safe_repr(r.value)[:300], "serialized": data, "schema": schema})
+
+
 def run_family(env, check, count):
     """generate `count` families and run `check` (one of the functions above) on each"""
     import time
